@@ -213,6 +213,26 @@ PROPERTIES = {
         assumptions=["format/parse inverse pair ('float-format')", "species lists are concrete instances"],
         explanation="writer and reader executed symbolically on the same in-memory text",
     ),
+    "C20": dict(
+        engines="Z+B",
+        claim="Reproducibility as a frame condition: every site of the package where iteration order of unordered collections, random numbers, "
+              "uninitialised memory, the clock / identities / environment or threads can enter a result is enumerated from the current source on "
+              "every run and matched with a checked disposition. Loops over sets are proved order-independent by the adjacent-swap lemma on the "
+              "real loop body (any number of species); pseudo_uniform is proved to assign every element (all sizes) and to stay in [0,1) (all seeds); "
+              "the seeded guesses are proved to depend only on the seed, Nspin, Nstate and the number of plane waves per k-point (non-interference); "
+              "get_wannier draws from its seed parameter. Bit-identity across interpreters / FFT worker counts is NOT decidable by a contract on this "
+              "repository (scipy.fft, BLAS): bounded native stand-ins only, labelled bounded.",
+        note="floating-point addition is treated as real addition in the order-independence proofs (the property asks for agreement to round-off across hash "
+             "seeds); scipy.fft / BLAS determinism across thread counts is an assumed contract",
+        modules=["contracts.c20"],
+        level="proof",
+        trusted_base=["ast (parser)", "in-house AST->z3 symbolic executor (engine Z, pycv/wp)", "z3 5.1", "the source scanner's list of non-determinism sources (contracts/c20.py) is complete for CPython + numpy"],
+        assumptions=["numpy Generator(SFC64(seed)) streams are a function of the seed and of the sequence of drawn shapes ('rng')",
+                     "scipy.fft with workers=n and BLAS return bit-identical results for every n (only checked by the bounded native stand-in)",
+                     "every un-interpreted numpy call is a deterministic function of its arguments",
+                     "float + is real + for the order-independence clause"],
+        explanation="source inventory + per-site obligations (adjacent-swap lemma, loop-nest coverage VC, loop invariant, non-interference by symbolic execution)",
+    ),
 }
 
 
